@@ -1,0 +1,66 @@
+//! verification hook (cfg ordinals_ord_verif): public wrapper over the private,
+//! pure `Split::build_transaction` so that a harness can call it with a supplied
+//! rune inventory and split file. No logic of its own.
+use super::*;
+
+/// One split-file output: address, optional value, runes (by rune, amount).
+pub struct SplitOutput {
+  pub address: Address,
+  pub value: Option<Amount>,
+  pub runes: BTreeMap<Rune, u128>,
+}
+
+/// `Err((kind, message))`; kind: 1 DustOutput, 2 DustPostage, 3 NoOutputs,
+/// 4 RunestoneSize, 5 Shortfall, 6 ZeroValue.
+pub fn build_transaction(
+  no_runestone_limit: bool,
+  balances: BTreeMap<OutPoint, BTreeMap<Rune, u128>>,
+  change_address: &Address,
+  postage: Option<Amount>,
+  outputs: Vec<SplitOutput>,
+  rune_ids: BTreeMap<Rune, RuneId>,
+) -> Result<Transaction, (u8, String)> {
+  let splits = Splitfile {
+    outputs: outputs
+      .into_iter()
+      .map(|output| splitfile::Output {
+        address: output.address,
+        value: output.value,
+        runes: output.runes,
+      })
+      .collect(),
+    rune_info: rune_ids
+      .into_iter()
+      .map(|(rune, id)| {
+        (
+          rune,
+          splitfile::RuneInfo {
+            divisibility: 0,
+            id,
+            spaced_rune: SpacedRune { rune, spacers: 0 },
+            symbol: None,
+          },
+        )
+      })
+      .collect(),
+  };
+
+  Split::build_transaction(
+    no_runestone_limit,
+    balances,
+    change_address,
+    postage,
+    &splits,
+  )
+  .map_err(|err| {
+    let kind = match err {
+      Error::DustOutput { .. } => 1,
+      Error::DustPostage { .. } => 2,
+      Error::NoOutputs => 3,
+      Error::RunestoneSize { .. } => 4,
+      Error::Shortfall { .. } => 5,
+      Error::ZeroValue { .. } => 6,
+    };
+    (kind, err.to_string())
+  })
+}
